@@ -133,6 +133,27 @@ def run(args) -> int:
                 base = dict(logic=n, premises=prems, conclusion=concl, configs=CFG, timeout_ms=2500)
                 jobs.append(dict(base, role='base', group=gid))
                 jobs.append(dict(base, role='rename', group=gid, rename=rn))
+            # variables that differ only in their subscript (x, x1), renamed apart; constants on both sides of a
+            # compound under a quantifier (every one of them is on the branch: witnesses must avoid them), renamed / with
+            # a premise added that mentions them
+            x0, x1v, yv = ['v', 0, 0], ['v', 0, 1], ['v', 1, 0]
+            Fp = lambda t_: ['P', 0, 0, [t_]]
+            Gp = lambda t_: ['P', 1, 0, [t_]]
+            Hp = lambda t_: ['P', 2, 0, [t_]]
+            VAR_W_ = 4
+            for prems, concl, rn in (
+                    ([['Q', 'Universal', 0, ['Q', 'Universal', VAR_W_, ['B', 'Conjunction', Fp(x0), Gp(x1v)]]]], Fp(m0),
+                     dict(atoms={}, consts={}, vars={'0,1': [1, 0]}, preds={})),
+                    ([['Q', 'Existential', 0, ['Q', 'Universal', VAR_W_, ['B', 'Conjunction', Fp(x0), Gp(x1v)]]]],
+                     ['Q', 'Existential', 0, Fp(x0)], dict(atoms={}, consts={}, vars={'0,1': [1, 0]}, preds={})),
+                    ([['Q', 'Existential', 1, ['B', 'Conjunction', Hp(m0), ['B', 'Conjunction', ['U', 'Negation', Hp(yv)], Gp(['c', 1, 0])]]]],
+                     ['A', 1], dict(atoms={}, consts={'0,0': [2, 0]}, vars={}, preds={}))):
+                gid = len(jobs)
+                base = dict(logic=n, premises=prems, conclusion=concl, configs=CFG, timeout_ms=2500)
+                jobs.append(dict(base, role='base', group=gid))
+                jobs.append(dict(base, role='rename', group=gid, rename=rn))
+                jobs.append(dict(base, role='monotone', group=gid, extra=['P', 3, 0, [m0]]))
+                jobs.append(dict(base, role='monotone', group=gid, extra=['P', 3, 0, [m0]], extra_front=True))
             # monotonicity with universal premises that introduce constants of their own, appended and prepended
             Fx_, Gx_, Hx_ = (['P', k_, 0, [['v', 0, 0]]] for k_ in (0, 1, 2))
             Fm_, Gm_, Hm_ = (['P', k_, 0, [m0]] for k_ in (0, 1, 2))
